@@ -67,7 +67,9 @@ class BaseTcpTunnelHandler(BaseTcpServerHandler[TcpClientConnection]):
         # Get default client events
         ev: SelectableEvents = await super().get_events()
         # Read from server if we are connected
-        if self.upstream and self.upstream._conn is not None:
+        # (not any more once it has closed and we only flush to the client)
+        if self.upstream and self.upstream._conn is not None and \
+                not self.must_flush_before_shutdown:
             ev[self.upstream.connection.fileno()] = selectors.EVENT_READ
         # If there is pending buffer for server
         # also register for EVENT_WRITE events
@@ -93,7 +95,12 @@ class BaseTcpTunnelHandler(BaseTcpServerHandler[TcpClientConnection]):
             if data is None:
                 # Server closed connection
                 logger.debug('Connection closed by server')
-                return True
+                if not self.work.has_buffer():
+                    return True
+                # Deliver what the server already sent, then tear down
+                # (see BaseTcpServerHandler.handle_writables).
+                self.must_flush_before_shutdown = True
+                return False
             # tunnel data to client
             self.work.queue(data)
         if self.upstream and self.upstream.connection.fileno() in writables:
